@@ -32,6 +32,10 @@ Proof. exact parse_encode. Qed.
 Theorem C18_query_first_value : forall l name, Forall bytes_pair l ->
   query_get (encode_pairs l) name = match find (fun kv => str_eqb (fst kv) name) l with Some kv => snd kv | None => [] end.
 Proof. exact query_get_encoded. Qed.
+(* QueryStrings sees every value written for its name, in order *)
+Theorem C18_query_all_values : forall l name, Forall bytes_pair l ->
+  query_values (encode_pairs l) name = map snd (filter (fun kv => str_eqb (fst kv) name) l).
+Proof. exact query_values_encoded. Qed.
 (* a piece that does not parse (a ';' in it, a bad escape) is dropped and hides nothing behind it *)
 Theorem C18_query_bad_piece_skipped : forall a b, free_of 38%N a = true ->
   parse_query (a ++ 38%N :: b) = (match parse_piece a with Some kv => [kv] | None => [] end) ++ parse_query b.
